@@ -1,13 +1,80 @@
-/- C09 — property theorems (placeholder while the pipeline is being tied; replaced below). -/
+/-
+  C09 — /localhost traffic never crosses a non-local face.  Property theorems over the shared model
+  `Fw` (C01/Fw.lean), for EVERY state `s` (hence every reachable one), every operation, both
+  strategies, every FIB, every oracle value (`tie`, `pick`).
+  Helper lemmas: C01/FwLemmas.lean, C01/FwLemmas2.lean.
+-/
 import NdnVerif.C09.Model
+import NdnVerif.C01.FwLemmas
 namespace Ndn.Fw.C09
-open Ndn Ndn.Fw
+open Ndn Ndn.Fw Ndn.Fw.Spec
 
-theorem hop0_dropped (s : St) (f : FaceId) (i : Interest) (tie : List FaceId) (pick : Nat)
-    (h : i.hop = some 0) : onInterest s f i tie pick = (s, []) := by
-  unfold onInterest
-  cases faceOf s.faces f with
+/-- No packet whose name begins with /localhost is ever transmitted on a non-local face — whatever
+    the FIB, strategy choice, PIT contents, cache contents, PIT tokens or NextHopFaceId say.
+    (Covers every send site: strategy send, NextHopFaceId, Content Store hit, single-match and
+    multi-match Data fan-out; configuration and timer operations send nothing.) -/
+theorem localhost_never_sent_nonlocal (s : St) (op : Op) (snd : Send) (h : snd ∈ (step s op).2) :
+    ¬(nonLocal s.faces snd.face = true ∧ specLocalhost snd.name = true) := by
+  rintro ⟨hnl, hlh⟩
+  have hlh' := specLocalhost_isLocalhost hlh
+  cases op with
+  | interest f i tie pick =>
+    simp only [step] at h
+    rcases onInterest_out s f i tie pick with h0 | ⟨ce, h1, _, _, _, fc, hfc, hsc⟩ | ⟨hop, tok, _, hfw⟩
+    · rw [h0] at h; simp at h
+    · rw [h1] at h
+      simp at h
+      subst h
+      simp only [Send.face, Send.name, nonLocal, hfc] at hnl hlh'
+      simp [hnl, hlh'] at hsc
+    · obtain ⟨g, rfl, hu, _⟩ := hfw snd h
+      obtain ⟨fc, hfc, _, _, hsc⟩ := usableOut_spec hu
+      simp only [Send.face, Send.name, nonLocal, hfc] at hnl hlh'
+      exact hsc ⟨by simpa using hnl, hlh'⟩
+  | data f d =>
+    simp only [step] at h
+    obtain ⟨g, tok, rfl, _, fc, hfc, hsc⟩ := onData_sends s f d snd h
+    simp only [Send.face, Send.name, nonLocal, hfc] at hnl hlh'
+    simp [hnl, hlh'] at hsc
+  | _ => simp [step] at h
+
+/-- non-vacuity: a local consumer asks for /localhost/a while the only route is a default route to
+    the non-local face 2: nothing is sent (before the fix of F-09a the Interest left on face 2). -/
+example :
+    let s : St := { faces := [⟨1, true, .p2p⟩, ⟨2, false, .p2p⟩], fib := [([], [(2, 1)])] }
+    (step s (.interest 1 { name := [localhostComp, ⟨8, [97]⟩], nonce := some 5 } [] 0)).2 = [] := by decide
+
+/-- An Interest named /localhost/… arriving on a non-local face is not accepted: the state is left
+    exactly as it was (no PIT entry, no in-record, no dead-nonce entry, no cache use) and nothing is
+    sent. -/
+theorem localhost_interest_rejected_inbound_no_change (s : St) (f : FaceId) (fc : Face) (i : Interest)
+    (tie : List FaceId) (pick : Nat) (hf : faceOf s.faces f = some fc) (hnl : fc.isLocal = false)
+    (hlh : specLocalhost i.name = true) :
+    step s (.interest f i tie pick) = (s, []) := by
+  have hlh' := specLocalhost_isLocalhost hlh
+  simp only [step, onInterest, hf]
+  cases hopStep i.hop with
   | none => rfl
-  | some inF => simp [h, hopStep]
+  | some hop => simp [hnl, hlh']
+
+/-- A Data named /localhost/… arriving on a non-local face is not accepted: it is neither cached nor
+    matched against the PIT, the state is unchanged and nothing is sent. -/
+theorem localhost_data_rejected_inbound_no_change (s : St) (f : FaceId) (fc : Face) (d : Data)
+    (hf : faceOf s.faces f = some fc) (hnl : fc.isLocal = false) (hlh : specLocalhost d.name = true) :
+    step s (.data f d) = (s, []) := by
+  have hlh' := specLocalhost_isLocalhost hlh
+  simp [step, onData, hf, hnl, hlh']
+
+/-- both rejections under one name (the statement of the property) -/
+theorem localhost_rejected_inbound_no_change (s : St) (f : FaceId) (fc : Face)
+    (hf : faceOf s.faces f = some fc) (hnl : fc.isLocal = false) :
+    (∀ i tie pick, specLocalhost i.name = true → step s (.interest f i tie pick) = (s, [])) ∧
+    (∀ d, specLocalhost d.name = true → step s (.data f d) = (s, [])) :=
+  ⟨fun i tie pick h => localhost_interest_rejected_inbound_no_change s f fc i tie pick hf hnl h,
+   fun d h => localhost_data_rejected_inbound_no_change s f fc d hf hnl h⟩
+
+example :
+    let s : St := { faces := [⟨2, false, .p2p⟩, ⟨1, true, .p2p⟩], fib := [([localhostComp], [(1, 1)])] }
+    step s (.interest 2 { name := [localhostComp, ⟨8, [97]⟩], nonce := some 5 } [] 0) = (s, []) := by decide
 
 end Ndn.Fw.C09
